@@ -93,7 +93,6 @@ structure PhaseA where
   newKw : AList String Val
   argNames : List String
   reqNames : List String
-  reqIdx : List Nat
   callerReq : List String
   operative : AList String Val
 deriving Repr, Inhabited
@@ -101,18 +100,17 @@ deriving Repr, Inhabited
 def popAll (d : AList String Val) (names : List String) : AList String Val :=
   names.foldl (fun acc n => AList.erase n acc) d
 
-/-- indices and names of positional arguments that are the REQUIRED marker -/
-def requiredPositions (argNames : List String) (args : List Val) : List (Nat × String) :=
-  ((List.range argNames.length).zip (argNames.zip args)).filterMap
-    (fun x => if x.2.2.isRequired then some (x.1, x.2.1) else none)
+/-- names of the named positional arguments that are the REQUIRED marker (1521-1526) -/
+def reqNamesOf : List String → List Val → List String
+  | n :: ns, a :: as => if a.isRequired then n :: reqNamesOf ns as else reqNamesOf ns as
+  | _, _ => []
 
 def phaseA (c : Cfgable) (cfg : Store) (σ : Scope) (args : List Val) (kwargs : AList String Val) :
     Except CallErr PhaseA :=
   let bound := getBindings cfg c.selector σ
   let argNames := c.sig.args.take args.length
   if (args.drop argNames.length).any Val.isRequired then .error .varargRequired else
-  let req := requiredPositions argNames args
-  let reqNames := req.map (·.2)
+  let reqNames := reqNamesOf argNames args
   let callerReq := (kwargs.filter (fun kv => kv.2.isRequired)).map (·.1)
   -- positionally supplied names lose their binding (unless marked REQUIRED)
   let newKw := popAll bound (argNames.filter (fun n => !reqNames.contains n))
@@ -120,7 +118,7 @@ def phaseA (c : Cfgable) (cfg : Store) (σ : Scope) (args : List Val) (kwargs : 
   let op := AList.update c.configurableDefaults newKw
   let op := popAll op (argNames.filter (fun n => !reqNames.contains n))
   let op := popAll op ((AList.keys kwargs).filter (fun n => !callerReq.contains n))
-  .ok { newKw, argNames, reqNames, reqIdx := req.map (·.1), callerReq, operative := op }
+  .ok { newKw, argNames, reqNames, callerReq, operative := op }
 
 /-- `_order_by_signature` -/
 def orderBySignature (s : Sig) (names : List String) : List String :=
@@ -132,22 +130,23 @@ structure Delivered where
   kwargs : AList String Val
 deriving Repr, Inhabited, BEq
 
-/-- substitution loop for positional REQUIRED markers (1575-1579) -/
-def substPositional : List (Nat × String) → List Val → AList String Val → List String →
-    (List Val × AList String Val × List String)
-  | [], newArgs, kw, missing => (newArgs, kw, missing)
-  | (i, name) :: rest, newArgs, kw, missing =>
-      match AList.lookup name kw with
-      | none => substPositional rest newArgs kw (missing ++ [name])
-      | some v => substPositional rest (newArgs.set i v) (AList.erase name kw) missing
+/-- substitution of positional REQUIRED markers (1574-1579): a marker in a named position is
+    replaced by the evaluated binding of that position's name, when there is one. -/
+def substArgs : List String → List Val → AList String Val → List Val
+  | n :: ns, a :: as, kw =>
+      (if a.isRequired then (AList.lookup n kw).getD a else a) :: substArgs ns as kw
+  | _, as, _ => as
 
 def phaseC (c : Cfgable) (a : PhaseA) (args : List Val) (kwargs : AList String Val)
     (evaluated : AList String Val) : Except CallErr Delivered :=
-  let (newArgs, kw, missing) := substPositional (a.reqIdx.zip a.reqNames) args evaluated []
-  let missing := missing ++ c.requiredKwargs.filter (fun rk =>
+  let missPos := a.reqNames.filter (fun n => !AList.contains n evaluated)
+  let newArgs := substArgs a.argNames args evaluated
+  let kw := popAll evaluated a.reqNames
+  let missSig := c.requiredKwargs.filter (fun rk =>
       !a.argNames.contains rk && !AList.contains rk kwargs && !AList.contains rk kw)
-  let missing := missing ++ a.callerReq.filter (fun rk => !AList.contains rk kw)
+  let missKw := a.callerReq.filter (fun rk => !AList.contains rk kw)
   let kwargs' := popAll kwargs (a.callerReq.filter (fun rk => AList.contains rk kw))
+  let missing := missPos ++ missSig ++ missKw
   if !missing.isEmpty then .error (.missingRequired (orderBySignature c.sig missing)) else
   .ok { args := newArgs, kwargs := AList.update kw kwargs' }
 
